@@ -211,6 +211,8 @@ class Exec:
             return self.operand(env, op[9:])
         if op.startswith("const "):
             return self.const(op[6:])
+        if re.match(r"^[A-Za-z_<][\w:<>', &\[\]]*$", op) and "::" in op:
+            return ("opq", "fnitem:" + op)   # a function item passed as a value
         raise Unsupported("operand: " + op)
 
     # ---------------------------------------------------------------- rvalues
@@ -317,6 +319,11 @@ class Exec:
             # enum variant aggregate of a type the checks do not reason about: opaque, keyed by its operands
             ops = [self.key(self.operand(env, o)) for o in split_top(m.group(3))] if m.group(3) else []
             return ("opq", f"variant:{m.group(1).split('::')[-1]}::{m.group(2)}({','.join(ops)})")
+        if rv.startswith("[") and rv.endswith("]"):
+            parts = split_top(rv[1:-1].split(";")[0]) if rv[1:-1].strip() else []
+            return ("opq", "array(" + ",".join(self.key(self.operand(env, p)) for p in parts) + ")")
+        if re.match(r"^(Len|ShallowInitBox|CopyForDeref|UnaryOp|NullOp|Cast)\(", rv) or rv.startswith("SizeOf(") or rv.startswith("AlignOf("):
+            return ("opq", "misc:" + rv[:40])
         if re.match(r"^[\w:<>]+ \{.*\}$", rv):
             return ("opq", "aggr:" + rv.split(" {")[0])   # struct / enum-struct-variant aggregate
         m = re.match(r"^(Div|Rem)\((.*)\)$", rv)
